@@ -133,6 +133,20 @@ func checkC31(r *Run) {
 	// R2
 	arithObligations(r, "C31-R2", "coin.UxOut.CoinHours", "util/fee.RequiredFee", "util/fee.VerifyTransactionFeeForHours", "util/fee.TransactionFee")
 	r.Min("C31-R2", 4)
+	// a caller that computes the remainder itself uses the same formula: total - RequiredFee(total, burn factor)
+	// (the ceil-div lemma makes it underflow-free), not a re-derived product
+	if fn := r.fn("C31-R3", "transaction.DistributeSpendHours"); fn != nil {
+		ff := r.P.Facts(fn)
+		found := false
+		for _, b := range fn.Blocks {
+			for _, in := range b.Instrs {
+				if bo, ok := in.(*ssa.BinOp); ok && ff.Term(bo) == "($0 - util/fee.RequiredFee($0, params.UserVerifyTxn.BurnFactor))" {
+					found = true
+				}
+			}
+		}
+		r.Check("C31-R3", "transaction.DistributeSpendHours: spendable hours = input hours - RequiredFee(input hours, user burn factor)", r.P.Pos(fn.Pos()), found, "the remainder is not computed from the fee helper")
+	}
 	r.ReturnShape("C31-R2", "util/fee.RequiredFee", 0,
 		ShapeCase{"($0 % uint64($1)) == 0", "($0 / uint64($1))"},
 		ShapeCase{"($0 % uint64($1)) != 0", "(($0 / uint64($1)) + 1)"})
